@@ -51,7 +51,7 @@ pub mod shadow_std {
     }
 
     pub mod io {
-        pub use super::super::simio::{stderr, stdout, Stderr, Stdout, StdoutLock};
+        pub use super::super::simio::{stderr, stdout, Stderr, StderrLock, Stdout, StdoutLock};
         pub use ::std::io::*;
     }
 
@@ -577,6 +577,86 @@ pub mod simpath {
         pub fn to_owned(&self) -> PathBuf {
             self.to_path_buf()
         }
+        // ---- the rest of the real API, spelled out so that `Path::file_name` and friends can be
+        // named as functions (paths through the type do not go through Deref)
+        pub fn as_os_str(&self) -> &OsStr {
+            self.0.as_os_str()
+        }
+        pub fn to_str(&self) -> Option<&str> {
+            self.0.to_str()
+        }
+        pub fn to_string_lossy(&self) -> Cow<'_, str> {
+            self.0.to_string_lossy()
+        }
+        pub fn is_absolute(&self) -> bool {
+            self.0.is_absolute()
+        }
+        pub fn is_relative(&self) -> bool {
+            self.0.is_relative()
+        }
+        pub fn has_root(&self) -> bool {
+            self.0.has_root()
+        }
+        pub fn file_name(&self) -> Option<&OsStr> {
+            self.0.file_name()
+        }
+        pub fn file_stem(&self) -> Option<&OsStr> {
+            self.0.file_stem()
+        }
+        pub fn extension(&self) -> Option<&OsStr> {
+            self.0.extension()
+        }
+        pub fn starts_with<P: AsRef<real::Path>>(&self, base: P) -> bool {
+            self.0.starts_with(base)
+        }
+        pub fn ends_with<P: AsRef<real::Path>>(&self, child: P) -> bool {
+            self.0.ends_with(child)
+        }
+        pub fn components(&self) -> real::Components<'_> {
+            self.0.components()
+        }
+        pub fn iter(&self) -> real::Iter<'_> {
+            self.0.iter()
+        }
+        pub fn display(&self) -> real::Display<'_> {
+            self.0.display()
+        }
+        pub fn into_path_buf(self: Box<Path>) -> PathBuf {
+            self.to_path_buf()
+        }
+    }
+    impl From<&Path> for std::sync::Arc<Path> {
+        fn from(p: &Path) -> Self {
+            let a: std::sync::Arc<real::Path> = std::sync::Arc::from(&p.0);
+            // repr(transparent)
+            unsafe { std::sync::Arc::from_raw(std::sync::Arc::into_raw(a) as *const Path) }
+        }
+    }
+    impl From<PathBuf> for std::sync::Arc<Path> {
+        fn from(p: PathBuf) -> Self {
+            std::sync::Arc::from(p.as_path())
+        }
+    }
+    impl From<&Path> for std::rc::Rc<Path> {
+        fn from(p: &Path) -> Self {
+            let a: std::rc::Rc<real::Path> = std::rc::Rc::from(&p.0);
+            unsafe { std::rc::Rc::from_raw(std::rc::Rc::into_raw(a) as *const Path) }
+        }
+    }
+    impl From<PathBuf> for std::rc::Rc<Path> {
+        fn from(p: PathBuf) -> Self {
+            std::rc::Rc::from(p.as_path())
+        }
+    }
+    impl From<PathBuf> for Box<Path> {
+        fn from(p: PathBuf) -> Self {
+            p.as_path().into()
+        }
+    }
+    impl Clone for Box<Path> {
+        fn clone(&self) -> Self {
+            (&**self).into()
+        }
     }
     impl Deref for Path {
         type Target = real::Path;
@@ -900,6 +980,9 @@ pub mod simfs {
         is_dir: bool,
     }
     impl FileType {
+        pub(crate) fn of(is_dir: bool) -> FileType {
+            FileType { is_dir }
+        }
         pub fn is_dir(&self) -> bool {
             self.is_dir
         }
@@ -919,6 +1002,7 @@ pub mod simfs {
         is_dir: bool,
         len: u64,
         mtime_ns: u64,
+        ino: u64,
     }
     impl Metadata {
         pub fn is_dir(&self) -> bool {
@@ -956,10 +1040,49 @@ pub mod simfs {
         pub fn size(&self) -> u64 {
             self.len
         }
+        /// an inode number: arbitrary but fixed per path on this simulated machine
+        pub fn ino(&self) -> u64 {
+            self.ino
+        }
+        pub fn mode(&self) -> u32 {
+            if self.is_dir {
+                0o040755
+            } else {
+                0o100644
+            }
+        }
+        pub fn nlink(&self) -> u64 {
+            1
+        }
+        pub fn uid(&self) -> u32 {
+            1000
+        }
+        pub fn gid(&self) -> u32 {
+            1000
+        }
+        pub fn dev(&self) -> u64 {
+            1
+        }
+        pub fn blksize(&self) -> u64 {
+            4096
+        }
+        pub fn blocks(&self) -> u64 {
+            (self.len + 511) / 512
+        }
+    }
+    pub(crate) fn ino_of(key: &str) -> u64 {
+        let seed = world::with(|w| w.mtime_seed);
+        let mut h = Fnv::default();
+        h.str(key);
+        h.u64(seed ^ 0x1_0de);
+        1 + h.0 % 0xffff_ffff
     }
 
     /// kind / length / mtime of a path as this run sees it
     pub(crate) fn stat(p: &Path) -> io::Result<Metadata> {
+        with_ino(p, stat_inner(p))
+    }
+    fn stat_inner(p: &Path) -> io::Result<Metadata> {
         let wk = write_key_of(p);
         let hit = world::with(|w| {
             w.metadata_queries += 1;
@@ -968,6 +1091,7 @@ pub mod simfs {
                     is_dir: false,
                     len: d.len() as u64,
                     mtime_ns: w.mtimes.get(&wk).copied().unwrap_or(w.clock_ns),
+                    ino: 0,
                 }));
             }
             if w.removed.contains(&wk) {
@@ -979,6 +1103,7 @@ pub mod simfs {
                     is_dir: false,
                     len: d.len() as u64,
                     mtime_ns: w.image_mtime(&key),
+                    ino: 0,
                 }));
             }
             if w.image.dirs.contains_key(&key) {
@@ -986,6 +1111,7 @@ pub mod simfs {
                     is_dir: true,
                     len: 4096,
                     mtime_ns: w.image_mtime(&key),
+                    ino: 0,
                 }));
             }
             Some(Err(io::Error::new(io::ErrorKind::NotFound, "No such file or directory")))
@@ -998,6 +1124,7 @@ pub mod simfs {
                         is_dir: true,
                         len: 4096,
                         mtime_ns: world::with(|w| w.image_mtime(&wk)),
+                        ino: 0,
                     })
                 } else {
                     Err(io::Error::new(io::ErrorKind::NotFound, "No such file or directory"))
@@ -1013,6 +1140,7 @@ pub mod simfs {
                     is_dir: m.is_dir(),
                     len: m.len(),
                     mtime_ns: mt,
+                    ino: 0,
                 })
             }
         }
@@ -1020,6 +1148,12 @@ pub mod simfs {
 
     pub fn metadata<P: AsRef<Path>>(p: P) -> io::Result<Metadata> {
         stat(p.as_ref())
+    }
+    fn with_ino(p: &Path, m: io::Result<Metadata>) -> io::Result<Metadata> {
+        m.map(|mut m| {
+            m.ino = ino_of(&write_key_of(p));
+            m
+        })
     }
     pub fn symlink_metadata<P: AsRef<Path>>(p: P) -> io::Result<Metadata> {
         stat(p.as_ref())
@@ -1054,6 +1188,10 @@ pub mod simfs {
         }
         pub fn metadata(&self) -> io::Result<Metadata> {
             stat(&self.path)
+        }
+        /// `std::os::unix::fs::DirEntryExt::ino`
+        pub fn ino(&self) -> u64 {
+            ino_of(&write_key_of(&self.path))
         }
     }
 
@@ -1587,6 +1725,13 @@ pub mod simfs {
             self.create_new = v;
             self
         }
+        /// `std::os::unix::fs::OpenOptionsExt`: permissions and flags are not modelled
+        pub fn mode(&mut self, _m: u32) -> &mut Self {
+            self
+        }
+        pub fn custom_flags(&mut self, _f: i32) -> &mut Self {
+            self
+        }
         pub fn open<P: AsRef<Path>>(&self, p: P) -> io::Result<File> {
             if self.write || self.append {
                 let key = write_key_of(p.as_ref());
@@ -1683,12 +1828,14 @@ pub mod simfs {
                         is_dir: false,
                         len: w.written.get(k).map(|d| d.len()).unwrap_or(0) as u64,
                         mtime_ns: w.mtimes.get(k).copied().unwrap_or(w.clock_ns),
+                        ino: 0,
                     })
                 }),
                 None => Ok(Metadata {
                     is_dir: false,
                     len: self.data.len() as u64,
                     mtime_ns: world::with(|w| w.image_mtime("<open file>")),
+                    ino: 0,
                 }),
             }
         }
@@ -1721,6 +1868,83 @@ pub mod simfs {
                 }
             }
             Ok(())
+        }
+        /// `std::os::unix::fs::FileExt::read_at`: positioned read, may be short or interrupted like
+        /// any other read of this stream
+        pub fn read_at(&self, buf: &mut [u8], offset: u64) -> io::Result<usize> {
+            let data: Arc<Vec<u8>> = match &self.write_key {
+                Some(k) => Arc::new(world::with(|w| w.written.get(k).cloned().unwrap_or_default())),
+                None => self.data.clone(),
+            };
+            let pos = (offset as usize).min(data.len());
+            let mut n = (data.len() - pos).min(buf.len());
+            if self.rng.is_some() && n > 1 {
+                // a plan derived from the stream's seed and the offset (the handle is shared)
+                let mut r = Rng::new(self.rng.as_ref().map(|r| r.draws).unwrap_or(0) ^ offset.wrapping_mul(0x9E37_79B9_7F4A_7C15) ^ 0x51ed);
+                if r.chance(1, 2) {
+                    n = 1 + r.below(n as u64 - 1) as usize;
+                    world::with(|w| w.stats.short_reads += 1);
+                }
+            }
+            buf[..n].copy_from_slice(&data[pos..pos + n]);
+            world::with(|w| {
+                w.stats.bytes_read += n as u64;
+                w.event("pread", offset, n as u64);
+            });
+            Ok(n)
+        }
+        pub fn read_exact_at(&self, mut buf: &mut [u8], mut offset: u64) -> io::Result<()> {
+            while !buf.is_empty() {
+                match self.read_at(buf, offset) {
+                    Ok(0) => return Err(io::Error::new(io::ErrorKind::UnexpectedEof, "failed to fill whole buffer")),
+                    Ok(n) => {
+                        let tmp = buf;
+                        buf = &mut tmp[n..];
+                        offset += n as u64;
+                    }
+                    Err(e) if e.kind() == io::ErrorKind::Interrupted => {}
+                    Err(e) => return Err(e),
+                }
+            }
+            Ok(())
+        }
+        /// `FileExt::write_at`
+        pub fn write_at(&self, buf: &[u8], offset: u64) -> io::Result<usize> {
+            let Some(key) = self.write_key.clone() else {
+                return Err(io::Error::new(io::ErrorKind::PermissionDenied, "file not opened for writing"));
+            };
+            let gate = world::with(|w| {
+                let mut d = Fnv::default();
+                d.bytes(buf);
+                w.event("pwrite", d.0, offset);
+                w.gate(true, Some(buf.len()))
+            });
+            let (m, die) = match gate {
+                Gate::Gone => return Ok(buf.len()),
+                Gate::CrashBefore => crash(),
+                Gate::Go => (buf.len(), false),
+                Gate::CrashAfter => (buf.len(), true),
+                Gate::Torn(m) => (m.min(buf.len()), true),
+            };
+            let data = &buf[..m];
+            world::with(|w| {
+                w.touch(&key);
+                let f = w.written.entry(key).or_default();
+                let at = offset as usize;
+                if f.len() < at {
+                    f.resize(at, 0);
+                }
+                let overlap = (f.len() - at).min(data.len());
+                f[at..at + overlap].copy_from_slice(&data[..overlap]);
+                f.extend_from_slice(&data[overlap..]);
+            });
+            if die {
+                crash();
+            }
+            Ok(buf.len())
+        }
+        pub fn write_all_at(&self, buf: &[u8], offset: u64) -> io::Result<()> {
+            self.write_at(buf, offset).map(|_| ())
         }
         pub fn try_clone(&self) -> io::Result<File> {
             Ok(File {
@@ -1889,13 +2113,15 @@ pub mod simio {
     }
 
     pub struct Stdout;
-    pub struct StdoutLock;
+    /// like std's, generic over the lifetime of the handle it locks
+    pub struct StdoutLock<'a>(std::marker::PhantomData<&'a ()>);
+    pub struct StderrLock<'a>(std::marker::PhantomData<&'a ()>);
     pub fn stdout() -> Stdout {
         Stdout
     }
     impl Stdout {
-        pub fn lock(&self) -> StdoutLock {
-            StdoutLock
+        pub fn lock(&self) -> StdoutLock<'static> {
+            StdoutLock(std::marker::PhantomData)
         }
     }
     /// a `write` on the stdout handle (not `println!`, which is `write_all` underneath)
@@ -1932,7 +2158,7 @@ pub mod simio {
             Ok(())
         }
     }
-    impl io::Write for StdoutLock {
+    impl io::Write for StdoutLock<'_> {
         fn write(&mut self, buf: &[u8]) -> io::Result<usize> {
             put(buf)
         }
@@ -1947,8 +2173,17 @@ pub mod simio {
         Stderr
     }
     impl Stderr {
-        pub fn lock(&self) -> Stderr {
-            Stderr
+        pub fn lock(&self) -> StderrLock<'static> {
+            StderrLock(std::marker::PhantomData)
+        }
+    }
+    impl io::Write for StderrLock<'_> {
+        fn write(&mut self, buf: &[u8]) -> io::Result<usize> {
+            world::with(|w| w.stats.stderr_prints += 1);
+            Ok(buf.len())
+        }
+        fn flush(&mut self) -> io::Result<()> {
+            Ok(())
         }
     }
     impl io::Write for Stderr {
@@ -2887,4 +3122,1177 @@ pub fn main_returned() {
         w.frozen = true;
         w.event("main_returned", 0, 0);
     });
+}
+
+// =============================================================================================
+// walkdir
+// =============================================================================================
+/// The `walkdir` crate as the generators see it (it is in the repository's lock file through a
+/// dev-dependency, so a generator may use it offline): the same API over the simulated file
+/// system. The real crate calls `std::fs::read_dir` of the real tree from inside the dependency,
+/// where no seam reaches: directory order would be the real machine's and nothing a simulated run
+/// wrote would be listed.
+pub mod shim_walkdir {
+    use super::simfs;
+    use super::OutPathBuf;
+    use std::cmp::Ordering;
+    use std::ffi::OsStr;
+    use std::io;
+    use std::path::{Path as RealPath, PathBuf as RealPathBuf};
+
+    #[cfg(feature = "path_shadow")]
+    type OutPath = super::simpath::Path;
+    #[cfg(not(feature = "path_shadow"))]
+    type OutPath = std::path::Path;
+
+    #[cfg(feature = "path_shadow")]
+    fn out_path(p: &RealPath) -> &OutPath {
+        super::simpath::Path::wrap(p)
+    }
+    #[cfg(not(feature = "path_shadow"))]
+    fn out_path(p: &RealPath) -> &OutPath {
+        p
+    }
+
+    #[derive(Debug)]
+    pub struct Error {
+        depth: usize,
+        path: Option<RealPathBuf>,
+        err: io::Error,
+    }
+    impl Error {
+        pub fn path(&self) -> Option<&OutPath> {
+            self.path.as_deref().map(out_path)
+        }
+        pub fn depth(&self) -> usize {
+            self.depth
+        }
+        pub fn io_error(&self) -> Option<&io::Error> {
+            Some(&self.err)
+        }
+        pub fn into_io_error(self) -> Option<io::Error> {
+            Some(self.err)
+        }
+        pub fn loop_ancestor(&self) -> Option<&OutPath> {
+            None
+        }
+    }
+    impl std::fmt::Display for Error {
+        fn fmt(&self, f: &mut std::fmt::Formatter) -> std::fmt::Result {
+            match &self.path {
+                Some(p) => write!(f, "IO error for operation on {}: {}", p.display(), self.err),
+                None => write!(f, "{}", self.err),
+            }
+        }
+    }
+    impl std::error::Error for Error {}
+    impl From<Error> for io::Error {
+        fn from(e: Error) -> io::Error {
+            e.err
+        }
+    }
+    pub type Result<T> = std::result::Result<T, Error>;
+
+    #[derive(Debug, Clone)]
+    pub struct DirEntry {
+        path: RealPathBuf,
+        depth: usize,
+        is_dir: bool,
+    }
+    impl DirEntry {
+        pub fn path(&self) -> &OutPath {
+            out_path(&self.path)
+        }
+        pub fn into_path(self) -> OutPathBuf {
+            self.path.into()
+        }
+        pub fn file_name(&self) -> &OsStr {
+            self.path.file_name().unwrap_or_else(|| self.path.as_os_str())
+        }
+        pub fn file_type(&self) -> simfs::FileType {
+            simfs::FileType::of(self.is_dir)
+        }
+        pub fn depth(&self) -> usize {
+            self.depth
+        }
+        pub fn metadata(&self) -> Result<simfs::Metadata> {
+            simfs::stat(&self.path).map_err(|err| Error {
+                depth: self.depth,
+                path: Some(self.path.clone()),
+                err,
+            })
+        }
+        pub fn path_is_symlink(&self) -> bool {
+            false
+        }
+    }
+
+    type Sorter = Box<dyn FnMut(&DirEntry, &DirEntry) -> Ordering + Send + Sync + 'static>;
+
+    pub struct WalkDir {
+        root: RealPathBuf,
+        min_depth: usize,
+        max_depth: usize,
+        sorter: Option<Sorter>,
+        contents_first: bool,
+    }
+    impl WalkDir {
+        pub fn new<P: AsRef<RealPath>>(root: P) -> WalkDir {
+            WalkDir {
+                root: root.as_ref().to_path_buf(),
+                min_depth: 0,
+                max_depth: usize::MAX,
+                sorter: None,
+                contents_first: false,
+            }
+        }
+        pub fn min_depth(mut self, d: usize) -> Self {
+            self.min_depth = d;
+            self
+        }
+        pub fn max_depth(mut self, d: usize) -> Self {
+            self.max_depth = d;
+            self
+        }
+        pub fn follow_links(self, _yes: bool) -> Self {
+            self
+        }
+        pub fn follow_root_links(self, _yes: bool) -> Self {
+            self
+        }
+        pub fn max_open(self, _n: usize) -> Self {
+            self
+        }
+        pub fn same_file_system(self, _yes: bool) -> Self {
+            self
+        }
+        pub fn contents_first(mut self, yes: bool) -> Self {
+            self.contents_first = yes;
+            self
+        }
+        pub fn sort_by<F>(mut self, cmp: F) -> Self
+        where
+            F: FnMut(&DirEntry, &DirEntry) -> Ordering + Send + Sync + 'static,
+        {
+            self.sorter = Some(Box::new(cmp));
+            self
+        }
+        pub fn sort_by_key<K, F>(self, mut key: F) -> Self
+        where
+            F: FnMut(&DirEntry) -> K + Send + Sync + 'static,
+            K: Ord,
+        {
+            self.sort_by(move |a, b| key(a).cmp(&key(b)))
+        }
+        pub fn sort_by_file_name(self) -> Self {
+            self.sort_by(|a, b| a.file_name().cmp(b.file_name()))
+        }
+    }
+    impl IntoIterator for WalkDir {
+        type Item = Result<DirEntry>;
+        type IntoIter = IntoIter;
+        fn into_iter(self) -> IntoIter {
+            IntoIter {
+                opts: self,
+                started: false,
+                stack: vec![],
+                descend: None,
+                deferred: vec![],
+            }
+        }
+    }
+
+    pub struct IntoIter {
+        opts: WalkDir,
+        started: bool,
+        /// remaining entries of every directory on the current path
+        stack: Vec<std::vec::IntoIter<DirEntry>>,
+        /// the directory yielded last: listed when the iteration goes on (unless skipped)
+        descend: Option<DirEntry>,
+        /// contents_first: directories whose contents are being walked
+        deferred: Vec<DirEntry>,
+    }
+    impl IntoIter {
+        pub fn skip_current_dir(&mut self) {
+            if self.descend.take().is_none() {
+                self.stack.pop();
+            }
+        }
+        pub fn filter_entry<P>(self, predicate: P) -> FilterEntry<P>
+        where
+            P: FnMut(&DirEntry) -> bool,
+        {
+            FilterEntry { it: self, predicate }
+        }
+        fn list(&mut self, dir: &DirEntry) -> Result<()> {
+            let rd = simfs::read_dir(&dir.path).map_err(|err| Error {
+                depth: dir.depth,
+                path: Some(dir.path.clone()),
+                err,
+            })?;
+            let mut v = vec![];
+            for e in rd {
+                let e = e.map_err(|err| Error {
+                    depth: dir.depth + 1,
+                    path: Some(dir.path.clone()),
+                    err,
+                })?;
+                let is_dir = e.file_type().map(|t| t.is_dir()).unwrap_or(false);
+                let p: RealPathBuf = e.path().into();
+                v.push(DirEntry {
+                    path: p,
+                    depth: dir.depth + 1,
+                    is_dir,
+                });
+            }
+            if let Some(s) = self.opts.sorter.as_mut() {
+                v.sort_by(|a, b| s(a, b));
+            }
+            self.stack.push(v.into_iter());
+            Ok(())
+        }
+    }
+    impl Iterator for IntoIter {
+        type Item = Result<DirEntry>;
+        fn next(&mut self) -> Option<Result<DirEntry>> {
+            loop {
+                if !self.started {
+                    self.started = true;
+                    let root = match simfs::stat(&self.opts.root) {
+                        Ok(m) => DirEntry {
+                            path: self.opts.root.clone(),
+                            depth: 0,
+                            is_dir: m.is_dir(),
+                        },
+                        Err(err) => {
+                            return Some(Err(Error {
+                                depth: 0,
+                                path: Some(self.opts.root.clone()),
+                                err,
+                            }))
+                        }
+                    };
+                    self.stack.push(vec![root].into_iter());
+                }
+                if let Some(d) = self.descend.take() {
+                    if d.depth < self.opts.max_depth {
+                        if let Err(e) = self.list(&d) {
+                            return Some(Err(e));
+                        }
+                        if self.opts.contents_first {
+                            self.deferred.push(d);
+                        }
+                    } else if self.opts.contents_first && d.depth >= self.opts.min_depth {
+                        return Some(Ok(d));
+                    }
+                }
+                let next = match self.stack.last_mut() {
+                    None => return None,
+                    Some(top) => top.next(),
+                };
+                match next {
+                    None => {
+                        self.stack.pop();
+                        if self.opts.contents_first {
+                            // the directory whose contents are done
+                            if let Some(d) = self.deferred.pop() {
+                                if d.depth >= self.opts.min_depth {
+                                    return Some(Ok(d));
+                                }
+                            }
+                        }
+                    }
+                    Some(e) => {
+                        if e.is_dir {
+                            self.descend = Some(e.clone());
+                            if self.opts.contents_first {
+                                continue;
+                            }
+                        }
+                        if e.depth >= self.opts.min_depth && e.depth <= self.opts.max_depth {
+                            return Some(Ok(e));
+                        }
+                    }
+                }
+            }
+        }
+    }
+
+    pub struct FilterEntry<P> {
+        it: IntoIter,
+        predicate: P,
+    }
+    impl<P: FnMut(&DirEntry) -> bool> Iterator for FilterEntry<P> {
+        type Item = Result<DirEntry>;
+        fn next(&mut self) -> Option<Result<DirEntry>> {
+            loop {
+                let e = match self.it.next()? {
+                    Ok(e) => e,
+                    Err(e) => return Some(Err(e)),
+                };
+                if !(self.predicate)(&e) {
+                    if e.is_dir {
+                        self.it.skip_current_dir();
+                    }
+                    continue;
+                }
+                return Some(Ok(e));
+            }
+        }
+    }
+    impl<P: FnMut(&DirEntry) -> bool> FilterEntry<P> {
+        pub fn filter_entry(self, predicate: P) -> FilterEntry<P> {
+            FilterEntry { it: self.it, predicate }
+        }
+        pub fn skip_current_dir(&mut self) {
+            self.it.skip_current_dir()
+        }
+    }
+}
+
+// =============================================================================================
+// rayon
+// =============================================================================================
+/// The part of `rayon` a table generator plausibly uses, on top of the simulated threads. The real
+/// crate runs closures on a pool of OS threads it owns: no seam reaches them, their interleaving
+/// is not the simulator's to decide and a run would not replay. Here every parallel stage hands
+/// its items to a handful of simulated worker threads (as many as the simulated machine has
+/// cores) that claim them one at a time, so which closure call runs when — and, for the unordered
+/// `par_bridge`, in which order results arrive — is a scheduling decision like any other. Stages
+/// are executed eagerly (all of `map`, then all of `filter`, ...), which yields only interleavings
+/// a real pool with enough threads can produce.
+pub mod shim_rayon {
+    use crate::world;
+    use std::collections::VecDeque;
+
+    fn pool_size() -> usize {
+        let forced = world::with(|w| w.rayon_threads);
+        match forced {
+            Some(n) if n > 0 => n as usize,
+            _ => {
+                let n = world::with(|w| w.decide_cores()) as usize;
+                world::with(|w| w.rayon_threads = Some(n as u32));
+                n.max(1)
+            }
+        }
+    }
+
+    pub fn current_num_threads() -> usize {
+        pool_size()
+    }
+    pub fn current_thread_index() -> Option<usize> {
+        None
+    }
+    pub fn max_num_threads() -> usize {
+        1 << 16
+    }
+
+    /// Apply `f` to every item on simulated worker threads. Ordered: results in item order.
+    /// Unordered: results in completion order (a scheduling outcome).
+    fn run_parallel<T: Send, U: Send>(items: Vec<T>, ordered: bool, f: &(dyn Fn(T) -> U + Sync)) -> Vec<U> {
+        let n = items.len();
+        if n == 0 {
+            return vec![];
+        }
+        world::with(|w| w.stats.parallel_stages += 1);
+        let workers = pool_size().min(n).min(16).max(1);
+        let queue: shuttle::sync::Mutex<VecDeque<(usize, T)>> = shuttle::sync::Mutex::new(items.into_iter().enumerate().collect());
+        let done: shuttle::sync::Mutex<Vec<(usize, U)>> = shuttle::sync::Mutex::new(Vec::with_capacity(n));
+        let mut jobs: Vec<Box<dyn FnOnce() + Send + '_>> = vec![];
+        for _ in 0..workers {
+            jobs.push(Box::new(|| loop {
+                let job = queue.lock().unwrap().pop_front();
+                match job {
+                    None => break,
+                    Some((i, t)) => {
+                        let u = f(t);
+                        done.lock().unwrap().push((i, u));
+                    }
+                }
+            }));
+        }
+        run_to_completion(jobs);
+        let mut v = done.into_inner().unwrap();
+        if ordered {
+            v.sort_by_key(|(i, _)| *i);
+        }
+        v.into_iter().map(|(_, u)| u).collect()
+    }
+
+    /// Run borrowed closures on simulated threads and wait for every one of them.
+    /// (Not the engine's `thread::scope`: its owner is woken by the completion of *any* scoped
+    /// thread it owns, whatever it is blocked on — a scope nested in a task that still has scoped
+    /// threads of an outer scope running returns early. Each thread is joined by handle here.)
+    fn run_to_completion<'a>(jobs: Vec<Box<dyn FnOnce() + Send + 'a>>) {
+        let handles: Vec<shuttle::thread::JoinHandle<()>> = jobs
+            .into_iter()
+            .map(|j| {
+                // SAFETY: every thread is joined below before this function returns, so nothing the
+                // closure borrows is used after its lifetime ends (a panic of the joining task ends
+                // the whole simulated execution)
+                let j: Box<dyn FnOnce() + Send + 'static> = unsafe { std::mem::transmute(j) };
+                shuttle::thread::spawn(j)
+            })
+            .collect();
+        let mut failure = None;
+        for h in handles {
+            if let Err(e) = h.join() {
+                failure.get_or_insert(e);
+            }
+        }
+        if let Some(e) = failure {
+            std::panic::resume_unwind(e);
+        }
+    }
+
+    /// leaves of the split tree a reduction or fold sees: depends on the pool size, like rayon's
+    fn leaves<T>(items: Vec<T>) -> Vec<Vec<T>> {
+        let n = items.len();
+        let parts = pool_size().min(n.max(1)).max(1);
+        let per = (n + parts - 1) / parts.max(1);
+        let mut out: Vec<Vec<T>> = vec![];
+        let mut cur = vec![];
+        for t in items {
+            cur.push(t);
+            if cur.len() >= per.max(1) {
+                out.push(std::mem::take(&mut cur));
+            }
+        }
+        if !cur.is_empty() {
+            out.push(cur);
+        }
+        out
+    }
+
+    pub mod iter {
+        use super::{leaves, run_parallel};
+        use std::cmp::Ordering;
+
+        /// a materialised parallel iterator
+        pub struct Par<T> {
+            pub(super) items: Vec<T>,
+            pub(super) ordered: bool,
+        }
+        impl<T> IntoIterator for Par<T> {
+            type Item = T;
+            type IntoIter = std::vec::IntoIter<T>;
+            fn into_iter(self) -> Self::IntoIter {
+                self.items.into_iter()
+            }
+        }
+
+        pub trait IntoParallelIterator {
+            type Item: Send;
+            type Iter: ParallelIterator<Item = Self::Item>;
+            fn into_par_iter(self) -> Self::Iter;
+        }
+        impl<I: IntoIterator> IntoParallelIterator for I
+        where
+            I::Item: Send,
+        {
+            type Item = I::Item;
+            type Iter = Par<I::Item>;
+            fn into_par_iter(self) -> Par<I::Item> {
+                Par {
+                    items: self.into_iter().collect(),
+                    ordered: true,
+                }
+            }
+        }
+        pub trait IntoParallelRefIterator<'data> {
+            type Item: Send + 'data;
+            type Iter: ParallelIterator<Item = Self::Item>;
+            fn par_iter(&'data self) -> Self::Iter;
+        }
+        impl<'data, I: 'data + ?Sized> IntoParallelRefIterator<'data> for I
+        where
+            &'data I: IntoIterator,
+            <&'data I as IntoIterator>::Item: Send,
+        {
+            type Item = <&'data I as IntoIterator>::Item;
+            type Iter = Par<Self::Item>;
+            fn par_iter(&'data self) -> Self::Iter {
+                Par {
+                    items: self.into_iter().collect(),
+                    ordered: true,
+                }
+            }
+        }
+        pub trait IntoParallelRefMutIterator<'data> {
+            type Item: Send + 'data;
+            type Iter: ParallelIterator<Item = Self::Item>;
+            fn par_iter_mut(&'data mut self) -> Self::Iter;
+        }
+        impl<'data, I: 'data + ?Sized> IntoParallelRefMutIterator<'data> for I
+        where
+            &'data mut I: IntoIterator,
+            <&'data mut I as IntoIterator>::Item: Send,
+        {
+            type Item = <&'data mut I as IntoIterator>::Item;
+            type Iter = Par<Self::Item>;
+            fn par_iter_mut(&'data mut self) -> Self::Iter {
+                Par {
+                    items: self.into_iter().collect(),
+                    ordered: true,
+                }
+            }
+        }
+        /// `par_bridge`: the one unordered source
+        pub trait ParallelBridge: Sized {
+            type Item: Send;
+            fn par_bridge(self) -> Par<Self::Item>;
+        }
+        impl<T: Iterator + Send> ParallelBridge for T
+        where
+            T::Item: Send,
+        {
+            type Item = T::Item;
+            fn par_bridge(self) -> Par<T::Item> {
+                Par {
+                    items: self.collect(),
+                    ordered: false,
+                }
+            }
+        }
+        pub trait FromParallelIterator<T: Send> {
+            fn from_par_iter<I: IntoParallelIterator<Item = T>>(p: I) -> Self;
+        }
+        impl<T: Send, C: FromIterator<T>> FromParallelIterator<T> for C {
+            fn from_par_iter<I: IntoParallelIterator<Item = T>>(p: I) -> C {
+                p.into_par_iter().into_parts().0.into_iter().collect()
+            }
+        }
+        pub trait ParallelExtend<T: Send> {
+            fn par_extend<I: IntoParallelIterator<Item = T>>(&mut self, p: I);
+        }
+        impl<T: Send, C: Extend<T>> ParallelExtend<T> for C {
+            fn par_extend<I: IntoParallelIterator<Item = T>>(&mut self, p: I) {
+                self.extend(p.into_par_iter().into_parts().0)
+            }
+        }
+
+        pub trait ParallelIterator: Sized {
+            type Item: Send;
+            /// the items and whether their order is meaningful
+            fn into_parts(self) -> (Vec<Self::Item>, bool);
+
+            fn map<R: Send, F: Fn(Self::Item) -> R + Sync + Send>(self, f: F) -> Par<R> {
+                let (items, ordered) = self.into_parts();
+                Par {
+                    items: run_parallel(items, ordered, &f),
+                    ordered,
+                }
+            }
+            fn map_with<T: Send + Clone, R: Send, F: Fn(&mut T, Self::Item) -> R + Sync + Send>(self, init: T, f: F) -> Par<R> {
+                let init = std::sync::Mutex::new(init);
+                self.map(move |x| {
+                    let mut t = init.lock().unwrap().clone();
+                    f(&mut t, x)
+                })
+            }
+            fn map_init<T, INIT: Fn() -> T + Sync + Send, R: Send, F: Fn(&mut T, Self::Item) -> R + Sync + Send>(self, init: INIT, f: F) -> Par<R> {
+                self.map(move |x| {
+                    let mut t = init();
+                    f(&mut t, x)
+                })
+            }
+            fn for_each<F: Fn(Self::Item) + Sync + Send>(self, f: F) {
+                let _ = self.map(f);
+            }
+            fn for_each_with<T: Send + Clone, F: Fn(&mut T, Self::Item) + Sync + Send>(self, init: T, f: F) {
+                let _ = self.map_with(init, f);
+            }
+            fn for_each_init<T, INIT: Fn() -> T + Sync + Send, F: Fn(&mut T, Self::Item) + Sync + Send>(self, init: INIT, f: F) {
+                let _ = self.map_init(init, f);
+            }
+            fn try_for_each<R, E: Send, F: Fn(Self::Item) -> Result<R, E> + Sync + Send>(self, f: F) -> Result<(), E>
+            where
+                R: Send,
+            {
+                for r in self.map(f).items {
+                    r?;
+                }
+                Ok(())
+            }
+            fn inspect<F: Fn(&Self::Item) + Sync + Send>(self, f: F) -> Par<Self::Item> {
+                self.map(move |x| {
+                    f(&x);
+                    x
+                })
+            }
+            fn update<F: Fn(&mut Self::Item) + Sync + Send>(self, f: F) -> Par<Self::Item> {
+                self.map(move |mut x| {
+                    f(&mut x);
+                    x
+                })
+            }
+            fn filter<P: Fn(&Self::Item) -> bool + Sync + Send>(self, p: P) -> Par<Self::Item> {
+                let m = self.map(move |x| if p(&x) { Some(x) } else { None });
+                Par {
+                    items: m.items.into_iter().flatten().collect(),
+                    ordered: m.ordered,
+                }
+            }
+            fn filter_map<R: Send, F: Fn(Self::Item) -> Option<R> + Sync + Send>(self, f: F) -> Par<R> {
+                let m = self.map(f);
+                Par {
+                    items: m.items.into_iter().flatten().collect(),
+                    ordered: m.ordered,
+                }
+            }
+            fn flat_map<PI: IntoParallelIterator, F: Fn(Self::Item) -> PI + Sync + Send>(self, f: F) -> Par<PI::Item> {
+                let m = self.map(move |x| f(x).into_par_iter().into_parts().0);
+                Par {
+                    items: m.items.into_iter().flatten().collect(),
+                    ordered: m.ordered,
+                }
+            }
+            fn flat_map_iter<SI: IntoIterator, F: Fn(Self::Item) -> SI + Sync + Send>(self, f: F) -> Par<SI::Item>
+            where
+                SI::Item: Send,
+            {
+                let m = self.map(move |x| f(x).into_iter().collect::<Vec<_>>());
+                Par {
+                    items: m.items.into_iter().flatten().collect(),
+                    ordered: m.ordered,
+                }
+            }
+            fn flatten(self) -> Par<<Self::Item as IntoParallelIterator>::Item>
+            where
+                Self::Item: IntoParallelIterator,
+            {
+                let (items, ordered) = self.into_parts();
+                Par {
+                    items: items.into_iter().flat_map(|x| x.into_par_iter().into_parts().0).collect(),
+                    ordered,
+                }
+            }
+            fn flatten_iter(self) -> Par<<Self::Item as IntoIterator>::Item>
+            where
+                Self::Item: IntoIterator,
+                <Self::Item as IntoIterator>::Item: Send,
+            {
+                let (items, ordered) = self.into_parts();
+                Par {
+                    items: items.into_iter().flatten().collect(),
+                    ordered,
+                }
+            }
+            fn chain<C: IntoParallelIterator<Item = Self::Item>>(self, c: C) -> Par<Self::Item> {
+                let (mut items, ordered) = self.into_parts();
+                let (more, o2) = c.into_par_iter().into_parts();
+                items.extend(more);
+                Par { items, ordered: ordered && o2 }
+            }
+            fn cloned<'a, T: 'a + Clone + Send + Sync>(self) -> Par<T>
+            where
+                Self: ParallelIterator<Item = &'a T>,
+            {
+                let (items, ordered) = self.into_parts();
+                Par {
+                    items: items.into_iter().cloned().collect(),
+                    ordered,
+                }
+            }
+            fn copied<'a, T: 'a + Copy + Send + Sync>(self) -> Par<T>
+            where
+                Self: ParallelIterator<Item = &'a T>,
+            {
+                let (items, ordered) = self.into_parts();
+                Par {
+                    items: items.into_iter().copied().collect(),
+                    ordered,
+                }
+            }
+            fn count(self) -> usize {
+                self.into_parts().0.len()
+            }
+            fn sum<S: Send + std::iter::Sum<Self::Item> + std::iter::Sum<S>>(self) -> S {
+                leaves(self.into_parts().0).into_iter().map(|l| l.into_iter().sum::<S>()).sum()
+            }
+            fn product<P: Send + std::iter::Product<Self::Item> + std::iter::Product<P>>(self) -> P {
+                leaves(self.into_parts().0).into_iter().map(|l| l.into_iter().product::<P>()).product()
+            }
+            fn min(self) -> Option<Self::Item>
+            where
+                Self::Item: Ord,
+            {
+                self.into_parts().0.into_iter().min()
+            }
+            fn max(self) -> Option<Self::Item>
+            where
+                Self::Item: Ord,
+            {
+                self.into_parts().0.into_iter().max()
+            }
+            fn min_by<F: Fn(&Self::Item, &Self::Item) -> Ordering + Sync + Send>(self, f: F) -> Option<Self::Item> {
+                self.into_parts().0.into_iter().min_by(|a, b| f(a, b))
+            }
+            fn max_by<F: Fn(&Self::Item, &Self::Item) -> Ordering + Sync + Send>(self, f: F) -> Option<Self::Item> {
+                self.into_parts().0.into_iter().max_by(|a, b| f(a, b))
+            }
+            fn min_by_key<K: Ord + Send, F: Fn(&Self::Item) -> K + Sync + Send>(self, f: F) -> Option<Self::Item> {
+                self.into_parts().0.into_iter().min_by_key(|a| f(a))
+            }
+            fn max_by_key<K: Ord + Send, F: Fn(&Self::Item) -> K + Sync + Send>(self, f: F) -> Option<Self::Item> {
+                self.into_parts().0.into_iter().max_by_key(|a| f(a))
+            }
+            /// each leaf of the split tree starts from `identity()`, the leaves are combined left
+            /// to right: what rayon does, with the number of leaves following the pool size
+            fn reduce<ID: Fn() -> Self::Item + Sync + Send, OP: Fn(Self::Item, Self::Item) -> Self::Item + Sync + Send>(self, identity: ID, op: OP) -> Self::Item {
+                let parts: Vec<Self::Item> = leaves(self.into_parts().0)
+                    .into_iter()
+                    .map(|l| l.into_iter().fold(identity(), |a, b| op(a, b)))
+                    .collect();
+                parts.into_iter().fold(identity(), |a, b| op(a, b))
+            }
+            fn reduce_with<OP: Fn(Self::Item, Self::Item) -> Self::Item + Sync + Send>(self, op: OP) -> Option<Self::Item> {
+                let parts: Vec<Self::Item> = leaves(self.into_parts().0)
+                    .into_iter()
+                    .filter_map(|l| l.into_iter().reduce(|a, b| op(a, b)))
+                    .collect();
+                parts.into_iter().reduce(|a, b| op(a, b))
+            }
+            fn fold<T: Send, ID: Fn() -> T + Sync + Send, F: Fn(T, Self::Item) -> T + Sync + Send>(self, identity: ID, f: F) -> Par<T> {
+                let (items, ordered) = self.into_parts();
+                let ls = leaves(items);
+                Par {
+                    items: run_parallel(ls, ordered, &|l: Vec<Self::Item>| l.into_iter().fold(identity(), |a, b| f(a, b))),
+                    ordered,
+                }
+            }
+            fn fold_with<T: Send + Clone, F: Fn(T, Self::Item) -> T + Sync + Send>(self, init: T, f: F) -> Par<T> {
+                let init = std::sync::Mutex::new(init);
+                self.fold(move || init.lock().unwrap().clone(), f)
+            }
+            fn any<P: Fn(Self::Item) -> bool + Sync + Send>(self, p: P) -> bool {
+                self.map(p).items.into_iter().any(|b| b)
+            }
+            fn all<P: Fn(Self::Item) -> bool + Sync + Send>(self, p: P) -> bool {
+                self.map(p).items.into_iter().all(|b| b)
+            }
+            /// some match: the one whose test completed first (a scheduling outcome)
+            fn find_any<P: Fn(&Self::Item) -> bool + Sync + Send>(self, p: P) -> Option<Self::Item> {
+                let (items, _) = self.into_parts();
+                run_parallel(items, false, &|x| if p(&x) { Some(x) } else { None }).into_iter().flatten().next()
+            }
+            fn find_first<P: Fn(&Self::Item) -> bool + Sync + Send>(self, p: P) -> Option<Self::Item> {
+                self.filter(p).items.into_iter().next()
+            }
+            fn find_last<P: Fn(&Self::Item) -> bool + Sync + Send>(self, p: P) -> Option<Self::Item> {
+                self.filter(p).items.into_iter().last()
+            }
+            fn find_map_any<R: Send, P: Fn(Self::Item) -> Option<R> + Sync + Send>(self, p: P) -> Option<R> {
+                let (items, _) = self.into_parts();
+                run_parallel(items, false, &p).into_iter().flatten().next()
+            }
+            fn find_map_first<R: Send, P: Fn(Self::Item) -> Option<R> + Sync + Send>(self, p: P) -> Option<R> {
+                self.filter_map(p).items.into_iter().next()
+            }
+            fn while_some<T: Send>(self) -> Par<T>
+            where
+                Self: ParallelIterator<Item = Option<T>>,
+            {
+                let (items, ordered) = self.into_parts();
+                Par {
+                    items: items.into_iter().map_while(|x| x).collect(),
+                    ordered,
+                }
+            }
+            fn panic_fuse(self) -> Par<Self::Item> {
+                let (items, ordered) = self.into_parts();
+                Par { items, ordered }
+            }
+            fn collect<C: FromParallelIterator<Self::Item>>(self) -> C {
+                let (items, ordered) = self.into_parts();
+                C::from_par_iter(Par { items, ordered })
+            }
+            fn unzip<A: Send, B: Send, FA: Default + Send + ParallelExtend<A>, FB: Default + Send + ParallelExtend<B>>(self) -> (FA, FB)
+            where
+                Self: ParallelIterator<Item = (A, B)>,
+            {
+                let (items, _) = self.into_parts();
+                let (a, b): (Vec<A>, Vec<B>) = items.into_iter().unzip();
+                let (mut fa, mut fb) = (FA::default(), FB::default());
+                fa.par_extend(a);
+                fb.par_extend(b);
+                (fa, fb)
+            }
+            fn partition<A: Default + Send + ParallelExtend<Self::Item>, B: Default + Send + ParallelExtend<Self::Item>, P: Fn(&Self::Item) -> bool + Sync + Send>(self, p: P) -> (A, B) {
+                let m = self.map(move |x| (p(&x), x));
+                let (mut a, mut b) = (A::default(), B::default());
+                let (yes, no): (Vec<_>, Vec<_>) = m.items.into_iter().partition(|(k, _)| *k);
+                a.par_extend(yes.into_iter().map(|(_, x)| x).collect::<Vec<_>>());
+                b.par_extend(no.into_iter().map(|(_, x)| x).collect::<Vec<_>>());
+                (a, b)
+            }
+            fn opt_len(&self) -> Option<usize> {
+                None
+            }
+            // ---- indexed adaptors (every source but `par_bridge` is indexed)
+            fn enumerate(self) -> Par<(usize, Self::Item)> {
+                let (items, ordered) = self.into_parts();
+                Par {
+                    items: items.into_iter().enumerate().collect(),
+                    ordered,
+                }
+            }
+            fn zip<Z: IntoParallelIterator>(self, z: Z) -> Par<(Self::Item, Z::Item)> {
+                let (items, ordered) = self.into_parts();
+                Par {
+                    items: items.into_iter().zip(z.into_par_iter().into_parts().0).collect(),
+                    ordered,
+                }
+            }
+            fn zip_eq<Z: IntoParallelIterator>(self, z: Z) -> Par<(Self::Item, Z::Item)> {
+                let (items, ordered) = self.into_parts();
+                let other = z.into_par_iter().into_parts().0;
+                assert_eq!(items.len(), other.len(), "iterators must have the same length");
+                Par {
+                    items: items.into_iter().zip(other).collect(),
+                    ordered,
+                }
+            }
+            fn rev(self) -> Par<Self::Item> {
+                let (mut items, ordered) = self.into_parts();
+                items.reverse();
+                Par { items, ordered }
+            }
+            fn skip(self, n: usize) -> Par<Self::Item> {
+                let (items, ordered) = self.into_parts();
+                Par {
+                    items: items.into_iter().skip(n).collect(),
+                    ordered,
+                }
+            }
+            fn take(self, n: usize) -> Par<Self::Item> {
+                let (items, ordered) = self.into_parts();
+                Par {
+                    items: items.into_iter().take(n).collect(),
+                    ordered,
+                }
+            }
+            fn step_by(self, n: usize) -> Par<Self::Item> {
+                let (items, ordered) = self.into_parts();
+                Par {
+                    items: items.into_iter().step_by(n).collect(),
+                    ordered,
+                }
+            }
+            fn chunks(self, n: usize) -> Par<Vec<Self::Item>> {
+                let (items, ordered) = self.into_parts();
+                let mut out = vec![];
+                let mut cur = vec![];
+                for x in items {
+                    cur.push(x);
+                    if cur.len() == n {
+                        out.push(std::mem::take(&mut cur));
+                    }
+                }
+                if !cur.is_empty() {
+                    out.push(cur);
+                }
+                Par { items: out, ordered }
+            }
+            fn with_min_len(self, _n: usize) -> Par<Self::Item> {
+                let (items, ordered) = self.into_parts();
+                Par { items, ordered }
+            }
+            fn with_max_len(self, _n: usize) -> Par<Self::Item> {
+                let (items, ordered) = self.into_parts();
+                Par { items, ordered }
+            }
+            fn collect_into_vec(self, target: &mut Vec<Self::Item>) {
+                target.clear();
+                target.extend(self.into_parts().0);
+            }
+            fn position_any<P: Fn(Self::Item) -> bool + Sync + Send>(self, p: P) -> Option<usize> {
+                self.map(p).items.into_iter().position(|b| b)
+            }
+            fn position_first<P: Fn(Self::Item) -> bool + Sync + Send>(self, p: P) -> Option<usize> {
+                self.map(p).items.into_iter().position(|b| b)
+            }
+            fn len(&self) -> usize {
+                0
+            }
+        }
+        impl<T: Send> ParallelIterator for Par<T> {
+            type Item = T;
+            fn into_parts(self) -> (Vec<T>, bool) {
+                (self.items, self.ordered)
+            }
+            fn opt_len(&self) -> Option<usize> {
+                Some(self.items.len())
+            }
+            fn len(&self) -> usize {
+                self.items.len()
+            }
+        }
+        pub trait IndexedParallelIterator: ParallelIterator {}
+        impl<T: Send> IndexedParallelIterator for Par<T> {}
+    }
+
+    pub mod slice {
+        use super::iter::Par;
+        use std::cmp::Ordering;
+        pub trait ParallelSlice<T: Sync> {
+            fn as_parallel_slice(&self) -> &[T];
+            fn par_chunks(&self, n: usize) -> Par<&[T]> {
+                Par {
+                    items: self.as_parallel_slice().chunks(n).collect(),
+                    ordered: true,
+                }
+            }
+            fn par_chunks_exact(&self, n: usize) -> Par<&[T]> {
+                Par {
+                    items: self.as_parallel_slice().chunks_exact(n).collect(),
+                    ordered: true,
+                }
+            }
+            fn par_windows(&self, n: usize) -> Par<&[T]> {
+                Par {
+                    items: self.as_parallel_slice().windows(n).collect(),
+                    ordered: true,
+                }
+            }
+            fn par_split<P: Fn(&T) -> bool + Sync + Send>(&self, p: P) -> Par<&[T]> {
+                Par {
+                    items: self.as_parallel_slice().split(|x| p(x)).collect(),
+                    ordered: true,
+                }
+            }
+        }
+        impl<T: Sync> ParallelSlice<T> for [T] {
+            fn as_parallel_slice(&self) -> &[T] {
+                self
+            }
+        }
+        pub trait ParallelSliceMut<T: Send> {
+            fn as_parallel_slice_mut(&mut self) -> &mut [T];
+            fn par_chunks_mut(&mut self, n: usize) -> Par<&mut [T]> {
+                Par {
+                    items: self.as_parallel_slice_mut().chunks_mut(n).collect(),
+                    ordered: true,
+                }
+            }
+            fn par_sort(&mut self)
+            where
+                T: Ord,
+            {
+                self.as_parallel_slice_mut().sort()
+            }
+            fn par_sort_by<F: Fn(&T, &T) -> Ordering + Sync>(&mut self, f: F) {
+                self.as_parallel_slice_mut().sort_by(|a, b| f(a, b))
+            }
+            fn par_sort_by_key<K: Ord, F: Fn(&T) -> K + Sync>(&mut self, f: F) {
+                self.as_parallel_slice_mut().sort_by_key(|a| f(a))
+            }
+            fn par_sort_by_cached_key<K: Ord + Send, F: Fn(&T) -> K + Sync>(&mut self, f: F) {
+                self.as_parallel_slice_mut().sort_by_cached_key(|a| f(a))
+            }
+            fn par_sort_unstable(&mut self)
+            where
+                T: Ord,
+            {
+                self.as_parallel_slice_mut().sort_unstable()
+            }
+            fn par_sort_unstable_by<F: Fn(&T, &T) -> Ordering + Sync>(&mut self, f: F) {
+                self.as_parallel_slice_mut().sort_unstable_by(|a, b| f(a, b))
+            }
+            fn par_sort_unstable_by_key<K: Ord, F: Fn(&T) -> K + Sync>(&mut self, f: F) {
+                self.as_parallel_slice_mut().sort_unstable_by_key(|a| f(a))
+            }
+        }
+        impl<T: Send> ParallelSliceMut<T> for [T] {
+            fn as_parallel_slice_mut(&mut self) -> &mut [T] {
+                self
+            }
+        }
+    }
+
+    pub mod str {
+        use super::iter::Par;
+        pub trait ParallelString {
+            fn as_parallel_string(&self) -> &str;
+            fn par_lines(&self) -> Par<&str> {
+                Par {
+                    items: self.as_parallel_string().lines().collect(),
+                    ordered: true,
+                }
+            }
+            fn par_chars(&self) -> Par<char> {
+                Par {
+                    items: self.as_parallel_string().chars().collect(),
+                    ordered: true,
+                }
+            }
+            fn par_bytes(&self) -> Par<u8> {
+                Par {
+                    items: self.as_parallel_string().bytes().collect(),
+                    ordered: true,
+                }
+            }
+            fn par_split_whitespace(&self) -> Par<&str> {
+                Par {
+                    items: self.as_parallel_string().split_whitespace().collect(),
+                    ordered: true,
+                }
+            }
+            fn par_split(&self, sep: char) -> Par<&str> {
+                Par {
+                    items: self.as_parallel_string().split(sep).collect(),
+                    ordered: true,
+                }
+            }
+        }
+        impl ParallelString for str {
+            fn as_parallel_string(&self) -> &str {
+                self
+            }
+        }
+    }
+
+    pub mod prelude {
+        pub use super::iter::{
+            FromParallelIterator, IndexedParallelIterator, IntoParallelIterator, IntoParallelRefIterator, IntoParallelRefMutIterator,
+            ParallelBridge, ParallelExtend, ParallelIterator,
+        };
+        pub use super::slice::{ParallelSlice, ParallelSliceMut};
+        pub use super::str::ParallelString;
+    }
+
+    /// `rayon::join`: the second closure on its own simulated thread
+    pub fn join<A, B, RA, RB>(a: A, b: B) -> (RA, RB)
+    where
+        A: FnOnce() -> RA + Send,
+        B: FnOnce() -> RB + Send,
+        RA: Send,
+        RB: Send,
+    {
+        world::with(|w| w.stats.parallel_stages += 1);
+        let rb: std::sync::Mutex<Option<RB>> = std::sync::Mutex::new(None);
+        let ra: std::sync::Mutex<Option<RA>> = std::sync::Mutex::new(None);
+        run_to_completion(vec![
+            Box::new(|| {
+                *ra.lock().unwrap() = Some(a());
+            }),
+            Box::new(|| {
+                *rb.lock().unwrap() = Some(b());
+            }),
+        ]);
+        (ra.into_inner().unwrap().unwrap(), rb.into_inner().unwrap().unwrap())
+    }
+
+    type Body<'scope> = Box<dyn FnOnce(&Scope<'scope>) + Send + 'scope>;
+    /// `rayon::scope`: spawned bodies are collected and run, a batch at a time, on simulated threads
+    /// once the scope's own closure has returned (they may spawn further bodies)
+    pub struct Scope<'scope> {
+        pending: std::sync::Mutex<Vec<Body<'scope>>>,
+    }
+    impl<'scope> Scope<'scope> {
+        pub fn spawn<BODY: FnOnce(&Scope<'scope>) + Send + 'scope>(&self, body: BODY) {
+            self.pending.lock().unwrap().push(Box::new(body));
+        }
+    }
+    pub fn scope<'scope, OP, R>(op: OP) -> R
+    where
+        OP: FnOnce(&Scope<'scope>) -> R + Send,
+        R: Send,
+    {
+        let sc = Scope {
+            pending: std::sync::Mutex::new(vec![]),
+        };
+        let r = op(&sc);
+        loop {
+            let batch: Vec<Body<'scope>> = std::mem::take(&mut *sc.pending.lock().unwrap());
+            if batch.is_empty() {
+                break;
+            }
+            world::with(|w| w.stats.parallel_stages += 1);
+            let scref = &sc;
+            run_to_completion(batch.into_iter().map(|b| Box::new(move || b(scref)) as Box<dyn FnOnce() + Send + '_>).collect());
+        }
+        r
+    }
+    pub fn spawn<F: FnOnce() + Send + 'static>(f: F) {
+        let _ = super::simthread::spawn(f);
+    }
+
+    #[derive(Debug)]
+    pub struct ThreadPoolBuildError;
+    impl std::fmt::Display for ThreadPoolBuildError {
+        fn fmt(&self, f: &mut std::fmt::Formatter) -> std::fmt::Result {
+            write!(f, "the global thread pool has already been initialized")
+        }
+    }
+    impl std::error::Error for ThreadPoolBuildError {}
+
+    #[derive(Default)]
+    pub struct ThreadPoolBuilder {
+        threads: usize,
+    }
+    impl ThreadPoolBuilder {
+        pub fn new() -> Self {
+            Self::default()
+        }
+        pub fn num_threads(mut self, n: usize) -> Self {
+            self.threads = n;
+            self
+        }
+        pub fn thread_name<F: FnMut(usize) -> String + 'static>(self, _f: F) -> Self {
+            self
+        }
+        pub fn stack_size(self, _n: usize) -> Self {
+            self
+        }
+        pub fn build(self) -> Result<ThreadPool, ThreadPoolBuildError> {
+            Ok(ThreadPool { threads: self.threads })
+        }
+        pub fn build_global(self) -> Result<(), ThreadPoolBuildError> {
+            if self.threads > 0 {
+                world::with(|w| w.rayon_threads = Some(self.threads as u32));
+            }
+            Ok(())
+        }
+    }
+    pub struct ThreadPool {
+        threads: usize,
+    }
+    impl ThreadPool {
+        pub fn install<OP: FnOnce() -> R + Send, R: Send>(&self, op: OP) -> R {
+            let before = world::with(|w| w.rayon_threads);
+            if self.threads > 0 {
+                world::with(|w| w.rayon_threads = Some(self.threads as u32));
+            }
+            let r = op();
+            world::with(|w| w.rayon_threads = before);
+            r
+        }
+        pub fn current_num_threads(&self) -> usize {
+            if self.threads > 0 {
+                self.threads
+            } else {
+                pool_size()
+            }
+        }
+        pub fn join<A, B, RA, RB>(&self, a: A, b: B) -> (RA, RB)
+        where
+            A: FnOnce() -> RA + Send,
+            B: FnOnce() -> RB + Send,
+            RA: Send,
+            RB: Send,
+        {
+            self.install(|| join(a, b))
+        }
+        pub fn scope<'scope, OP, R>(&self, op: OP) -> R
+        where
+            OP: FnOnce(&Scope<'scope>) -> R + Send,
+            R: Send,
+        {
+            self.install(|| scope(op))
+        }
+        pub fn spawn<F: FnOnce() + Send + 'static>(&self, f: F) {
+            spawn(f)
+        }
+    }
 }
